@@ -223,6 +223,7 @@ pub fn run(tier: &str) -> i32 {
     progs.extend(extra_space());
     progs.extend(crate::c05::io_host_space());
     progs.extend(lookalike_space());
+    progs.extend(named_members_space());
     // member / element types written through `alias` declarations (every 3rd program in quick)
     {
         let n0 = progs.len();
